@@ -23,7 +23,7 @@ META = dict(
            "numba.njit = identity", "np float arrays = object arrays of z3 reals"],
     assumptions=["pair dissimilarities symmetric and >= 0", "delta_empty > 0", "segments longer than pyannote's SEGMENT_PRECISION",
                  "units of one annotator listed by increasing start (the container sorts them)"],
-    cfg_budget_s=dict(quick=200, thorough=1700),
+    cfg_budget_s=dict(quick=200, thorough=900),
 )
 
 BACKENDS = ["cbc", "glpk_import", "glpk_solvererror"]
@@ -41,6 +41,11 @@ def configs(tier):
             out.append(dict(key=f"positional,sizes={s},labels={lab}", sizes=list(s), dissim="positional", labels=lab, backend="cbc", cost=50))
     for lab in ["none", "mixed", "xy"]:
         out.append(dict(key=f"combined,sizes=(1, 1),labels={lab}", sizes=[1, 1], dissim="combined", labels=lab, backend="cbc", cost=60))
+    # histories on one continuum object: an earlier computation, then an edit through the public API, then the alignment under test
+    for s in [(2, 1), (1, 1, 1)]:
+        for warm in ("remove", "add-remove"):
+            out.append(dict(key=f"best,after-earlier-computation-and-{warm},sizes={s}", sizes=list(s), dissim="abstract", backend="cbc", mode="best", warm=warm,
+                            cost=len(common.all_tuples(s)) ** 2))
     if tier == "thorough":
         for s in [(3, 2), (3, 3), (2, 1, 1), (2, 2, 1), (1, 1, 1, 1), (0, 1, 2)]:
             for b in (BACKENDS if sum(s) <= 5 else ["cbc", "glpk_import"]):
